@@ -55,9 +55,17 @@ def _timedelta_arms(ctx) -> None:
         else:
             ctx.ob("DUNDER.route", "DateTime.__add__/timedelta", val == f"self._add_timedelta_({op})",
                    f"returns `{val}`; must route to self._add_timedelta_({op})", m.loc(ex[2] or addf))
-    r = core.returns(m.func("DateTime.__radd__"))
-    ctx.ob("DUNDER.route", "DateTime.__radd__", len(r) == 1 and nun(r[0].value) == "self.__add__(other)",
-           f"returns `{[nun(x.value) for x in r]}`", m.loc(m.func("DateTime.__radd__")))
+    if "__radd__" in m.methods("DateTime") or m.class_aliases("DateTime").get("__radd__"):
+        if m.class_aliases("DateTime").get("__radd__") == "__add__":
+            ctx.ob("DUNDER.route", "DateTime.__radd__", True, "__radd__ = __add__", m.rel)
+        else:
+            r = core.returns(m.func("DateTime.__radd__"))
+            ctx.ob("DUNDER.route", "DateTime.__radd__", len(r) == 1 and nun(r[0].value) in ("self.__add__(other)", "self + other", "self._add_timedelta_(other)"),
+                   f"returns `{[nun(x.value) for x in r]}`", m.loc(m.func("DateTime.__radd__")))
+    else:
+        ctx.ob("DUNDER.route", "DateTime.__radd__", False,
+               "DateTime defines no __radd__: `timedelta + dt` is answered by datetime.__radd__, which adds on the wall clock and "
+               "keeps the tzinfo (across a transition the result is off by the offset change and may not exist)", m.rel)
     subf = m.func("DateTime.__sub__")
     op = core.params(subf)[0]
     seen = False
